@@ -177,7 +177,7 @@ Section Fwd.
     apply fwp_bindr. cbn [lift wp]. destruct (ids_of "cc" a) as [cc|e|p]; try exact I.
     apply fwp_bindr. cbn [lift wp]. destruct (ids_of "audience" a) as [au|e|p]; try exact I.
     apply fwp_bindr. eapply wp_mono; [|apply w_my_iris; reflexivity]. intros s' [mine|e|p] ->; try exact I.
-    apply wp_bind. eapply wp_mono; [|apply (w_load mine [] [] s1); reflexivity].
+    apply wp_bind. eapply wp_mono; [|apply (w_load (sort_strings (dedupe_iris mine [])) [] [] s1); reflexivity].
     intros s2 [rcols deferred] [C2 L2]. cbn [fst] in L2.
     apply wp_bind.
     assert (Hend : forall s (r : res unit), wp step (unlock_all (rev deferred);;; ret r) s (fun _ _ => True)).
